@@ -36,6 +36,49 @@ const (
 
 var errInjected = errors.New("verif: injected tier failure")
 
+// asyncRec: a tier call that arrived from a goroutine spawned by the code under test
+type asyncRec struct {
+	Who   int    `json:"who"` // schedule index of the parked call (sched mode), -2 in nodes mode
+	Tier  int    `json:"tier"`
+	M     string `json:"m"`
+	Key   string `json:"key"`
+	Frame string `json:"frame"` // innermost frame of package hybrid on that goroutine's stack, and who created the goroutine
+}
+
+// hybridFrame: innermost hybrid frame (function, file:line) and the "created by" line of the calling goroutine
+func hybridFrame() string {
+	buf := make([]byte, 1<<14)
+	n := runtime.Stack(buf, false)
+	lines := strings.Split(string(buf[:n]), "\n")
+	out := ""
+	for i, ln := range lines {
+		if out == "" && strings.HasPrefix(ln, "tunnox-core/internal/core/storage/hybrid.") {
+			out = strings.SplitN(ln, "(0x", 2)[0]
+			if i+1 < len(lines) {
+				f := strings.Fields(lines[i+1])
+				if len(f) > 0 {
+					out += " " + f[0][strings.LastIndex(f[0], "/")+1:]
+				}
+			}
+		}
+		if strings.HasPrefix(ln, "created by ") {
+			out += " (" + strings.SplitN(ln, " in goroutine", 2)[0] + ")"
+		}
+	}
+	return out
+}
+
+// spawnedPending: goroutines created by package hybrid that are alive and not (yet) parked in one of our gates
+func spawnedPending(dump string) int {
+	n := 0
+	for _, blk := range strings.Split(dump, "\n\n") {
+		if strings.Contains(blk, "created by tunnox-core/internal/core/storage/hybrid.") && !strings.Contains(blk, "main.(*sched).enter(") {
+			n++
+		}
+	}
+	return n
+}
+
 func allStacks() string {
 	buf := make([]byte, 1<<18)
 	for {
@@ -123,8 +166,9 @@ type sched struct {
 	keys   []string
 	wbRead []int // step of the persistent read that fed the j-th write-back
 
-	noWb    bool // repaired code: no write-back goroutine is spawned
-	seq     bool // nodes mode: ungated sequential history; only write-back goroutines are tracked
+	noWb    bool       // repaired code: no write-back goroutine is spawned
+	async   []asyncRec // tier calls made by goroutines that belong to no caller (spawned by the facade)
+	seq     bool       // nodes mode: ungated sequential history; only write-back goroutines are tracked
 	main    uint64
 	wg      sync.WaitGroup
 	onFirst func(who int, r *opRec) // sched mode: called when an operation makes its first tier call (state still untouched)
@@ -149,7 +193,11 @@ func (s *sched) enter(tier int, method, key string) (int, bool) {
 		if id == s.main {
 			return -1, false
 		}
-		return -2, false // the asynchronous write-back
+		fr := hybridFrame() // a goroutine spawned by the facade (the old write-back, or anything else asynchronous)
+		s.mu.Lock()
+		s.async = append(s.async, asyncRec{Who: -2, Tier: tier, M: method, Key: key, Frame: fr})
+		s.mu.Unlock()
+		return -2, false
 	}
 	s.mu.Lock()
 	if s.free {
@@ -158,14 +206,21 @@ func (s *sched) enter(tier int, method, key string) (int, bool) {
 	}
 	who, ok := s.goids[id]
 	if !ok {
+		// a tier call from a goroutine that belongs to no caller: an asynchronous tier write by the facade.  It is parked like any
+		// other step (schedule index n+j, j = arrival order) so that the schedule can delay it past other callers' operations.
+		s.mu.Unlock()
+		fr := hybridFrame()
+		s.mu.Lock()
 		if s.nextWb >= s.maxWb {
 			s.over = true
+			s.async = append(s.async, asyncRec{Who: -1, Tier: tier, M: method, Key: key, Frame: fr})
 			s.mu.Unlock()
 			return -1, false
 		}
 		who = s.n + s.nextWb
 		s.nextWb++
 		s.goids[id] = who
+		s.async = append(s.async, asyncRec{Who: who, Tier: tier, M: method, Key: key, Frame: fr})
 	}
 	s.mu.Unlock()
 	s.arrive <- who
@@ -196,7 +251,6 @@ func (s *sched) enter(tier int, method, key string) (int, bool) {
 
 func (s *sched) leave(who int) {
 	if s != nil && who == -2 {
-		s.wg.Done()
 		return
 	}
 	if s == nil || who < 0 {
@@ -317,9 +371,6 @@ func (p *persDouble) Get(key string) (any, error) {
 	}
 	if p.s != nil {
 		p.s.mu.Lock()
-		if p.s.seq && !p.s.noWb {
-			p.s.wg.Add(1)
-		}
 		p.s.expWb++ // hybrid.Get / getSharedPersistent spawn one write-back per successful persistent read
 		p.s.wbRead = append(p.s.wbRead, p.s.step)
 		p.s.mu.Unlock()
@@ -456,6 +507,7 @@ type caseOut struct {
 	Viol      []viol     `json:"viol"`
 	WbRead    []int      `json:"wb_read"`
 	LockNote  string     `json:"lock_note,omitempty"`
+	Async     []asyncRec `json:"async"`
 	WbMissing bool       `json:"wb_missing"`
 	Overflow  bool       `json:"overflow"`
 	Extra     any        `json:"extra,omitempty"`
@@ -909,7 +961,43 @@ func runSched(c caseIn) *caseOut {
 			arrived[i] = false
 		}
 	}
+	// goroutines spawned by the facade must have reached their tier call (and be parked) before the next step is taken, otherwise
+	// their position in the schedule would depend on the Go scheduler.  Cheap test first (number of live goroutines), stack dump
+	// only when something unknown is alive.
+	base := 0
+	waitAsync := func() {
+		deadline := time.Now().Add(5 * time.Second)
+		for {
+			nf, na := 0, 0
+			for i := 0; i < n; i++ {
+				if finished[i] {
+					nf++
+				}
+			}
+			for j := n; j < tot; j++ {
+				if parked[j] && !finished[j] {
+					na++
+				}
+			}
+			if runtime.NumGoroutine() <= base-nf+na {
+				return
+			}
+			if spawnedPending(allStacks()) == 0 {
+				return
+			}
+			select {
+			case j := <-s.arrive:
+				note(j)
+			case <-time.After(100 * time.Microsecond):
+			}
+			if time.Now().After(deadline) {
+				out.WbMissing = true
+				return
+			}
+		}
+	}
 	settleAll()
+	base = runtime.NumGoroutine()
 	emitAcquisitions(-1, make([]bool, n))
 	stepOne := func(i int) {
 		out.Sched = append(out.Sched, i)
@@ -925,6 +1013,7 @@ func runSched(c caseIn) *caseOut {
 		if i < n {
 			settleAll()
 			waitWb()
+			waitAsync()
 			emitAcquisitions(i, wasBlocked)
 		} else {
 			<-s.wbLeft
@@ -971,6 +1060,7 @@ func runSched(c caseIn) *caseOut {
 	out.Acc = s.acc
 	out.Spawned = s.nextWb
 	out.Overflow = s.over
+	out.Async = append([]asyncRec{}, s.async...)
 	out.WbRead = append([]int{}, s.wbRead...)
 	s.free = true
 	s.mu.Unlock()
@@ -1453,6 +1543,10 @@ func runCase(raw json.RawMessage) interface{} {
 		return runNodes(c)
 	case "probe":
 		return runProbe()
+	case "tables":
+		cfg := hybrid.DefaultConfig()
+		return map[string][]string{"persistent": cfg.PersistentPrefixes, "shared": cfg.SharedPrefixes,
+			"shared_persistent": cfg.SharedPersistentPrefixes, "runtime": hybrid.RuntimePrefixes}
 	}
 	return runSched(c)
 }
